@@ -1,6 +1,6 @@
 """C13 - NETWORK_ACK: awaited only when needed, sent once, believed only if received."""
 import ast
-from ..absval import Const, Sym, Bytes, Seq, norm, const_of
+from ..absval import Const, Sym, Bytes, Seq, norm, const_of, as_lin
 from ..interp import Ref, Limits, State
 from ..model import AnalysisError
 from ..tables import rf24network as T
@@ -133,6 +133,22 @@ def write_rules(ck, agg, nn):
                         agg.add("R13.3", f, "False is reported when route_timeout expires first", value_matches(out.value, False), "%s: timeout path returns %r" % (label, out.value))
                         dl = [x for x in timed[0].data[1] if "node.route_timeout" in net.base_deps(x)]
                         agg.add("R13.3", f, "the wait deadline is derived from route_timeout", bool(dl), "%s: deadline %r" % (label, timed[0].data[1]))
+                        if dl:
+                            # "within route_timeout after the first hop accepted the frame": the deadline is route_timeout (and nothing else
+                            # configurable) added to a clock reading taken after the first transmission returned
+                            from ..interp_expr import deps_of
+                            raw = deps_of(norm(dl[0]))
+                            clocks = {e.data: e.seq for e in out.trace if e.kind == "clock"}
+                            used = [c for c in raw if c in clocks]
+                            other = sorted(str(x) for x in raw if x not in clocks and x != "node.route_timeout" and not (isinstance(x, tuple) and x and x[0] == "node.route_timeout"))
+                            agg.add("R13.3", f, "the wait deadline depends on route_timeout and the clock only", not other, "%s: the deadline also depends on %s" % (label, other))
+                            t_sent = first_res[0].seq if first_res else 0
+                            agg.add("R13.3", f, "the route timeout starts when the first hop has accepted the frame", bool(used) and all(clocks[c] > t_sent for c in used),
+                                    "%s: the deadline uses a clock reading taken before the transmission to the first hop returned" % label)
+                            ll = as_lin(norm(dl[0]))
+                            if ll is not None and "node.route_timeout" in ll.terms:
+                                agg.add("R13.3", f, "route_timeout (ms) is converted to the clock's unit (x 1 000 000 for monotonic_ns)", ll.terms["node.route_timeout"] == 1000000,
+                                        "%s: deadline = %r" % (label, ll))
                     else:
                         agg.add("R13.3", f, "the wait ends only on NETWORK_ACK or on the route timeout", False, "%s: wait loop left otherwise, returning %r" % (label, out.value))
                 if not acks and not waits and len(sends) > 1:
